@@ -135,6 +135,11 @@ func (e *Exec) execStmt(st *State, s ast.Stmt) *State {
 	case *ast.SendStmt:
 		v := e.eval(st, s.Value)
 		e.Assumed["channel sends are skipped (single-threaded model)"] = true
+		if len(e.frames) == 1 && e.spec == 0 {
+			if o := e.calledObj["chan<-"]; o != nil {
+				st.Vars[o] = True
+			}
+		}
 		// `call chan<- assert[l] e`: e is checked at every send statement of the verified function;
 		// __arg(0) is the value sent
 		if len(e.frames) == 1 && e.spec == 0 && e.Fn.C != nil {
